@@ -30,6 +30,11 @@
 
 using namespace OpenMEEG;
 
+// LAPACKE / BLAS report illegal arguments by printing to the C stdout, which would corrupt the result lines: count instead
+static int xerbla_calls = 0;
+extern "C" void LAPACKE_xerbla(const char*,int) { ++xerbla_calls; }
+extern "C" void cblas_xerbla(blasint,char*,char*,...) { ++xerbla_calls; }
+
 static std::map<ll,std::unique_ptr<Geometry>> geos;
 static const Geometry& geo_of(ll id) {
     auto it = geos.find(id);
